@@ -56,7 +56,12 @@ def canonicalize_url(
 
     # Path normalization
     if path and path != "/":
+        trailing_slash = path.endswith(("/", "/.", "/.."))
         path = normpath(path)
+
+        # NOTE: normpath drops the trailing slash, which is significant
+        if trailing_slash and path:
+            path += "/"
 
     # Empty path etc.
     if not path or path == "/":
